@@ -317,7 +317,8 @@ func checkC09(w *Worker) {
 		}
 	})
 	if w.Tier == "quick" {
-		w.Explore("k<=1-layout-dev1", ExploreOpts{ShardDepth: 6, Budgets: map[string]int{"layout": 1}}, body(0, 1))
+		// quick: only the layout deviations that move line numbers or change line ends (CRLF, gap lines, final newline)
+		w.Explore("k<=1-layout-dev1", ExploreOpts{ShardDepth: 6, Budgets: map[string]int{"layout": 1, "layout:indent": 0, "layout:quote": 0, "layout:sep": 0, "layout:trail": 0}}, body(0, 1))
 		w.Explore("k=2-default-layout", ExploreOpts{ShardDepth: 6, Budgets: map[string]int{"layout": 0}}, body(2, 2))
 		return
 	}
